@@ -1119,10 +1119,15 @@ impl<'a> CompactionIterator<'a> {
 			let required_by_snapshot =
 				!superseded && self.must_preserve_for_snapshot(current_visibility);
 
+			// With versioning enabled a superseded version is still history: no snapshot
+			// needs it any more, but whether it goes is decided by the retention policy
+			// below, not by a snapshot happening to be open while the compaction runs.
+			let drop_as_superseded = superseded && !self.enable_versioning;
+
 			// ===== DETERMINE IF ENTRY IS STALE =====
 			// Stale entries are filtered out during compaction
 
-			let should_mark_stale = if superseded {
+			let should_mark_stale = if drop_as_superseded {
 				// Superseded: a newer version in the same visibility boundary
 				// makes this version redundant - safe to drop
 				true
@@ -1171,7 +1176,7 @@ impl<'a> CompactionIterator<'a> {
 
 			// ===== DETERMINE IF ENTRY SHOULD BE OUTPUT =====
 
-			let should_output = if superseded {
+			let should_output = if drop_as_superseded {
 				// Superseded by newer version: don't output
 				false
 			} else if latest_is_delete_at_bottom {
